@@ -19,6 +19,7 @@ func TestAcks(t *testing.T) {
 		ackSystem(t, h)
 		ackOffline(t, h)
 		ackRawPeer(t, h)
+		ackAcrossSockets(t, h)
 	})
 }
 
@@ -421,6 +422,88 @@ func ackRawPeer(t *testing.T, h *H) {
 		}
 		if len(lbls) > 0 && !strings.Contains(desc, "notanint") && !strings.Contains(desc, "61-0") {
 			h.Case("ack to=0 sched="+strings.Join(lbls, ","), "inv="+strings.Join(obs.inv[0], ","))
+		}
+	}
+}
+
+// a reply that belongs to an event sent to an earlier server socket of the same client (the client answers late, after it has
+// connected again) must not be taken for the reply to an event of the new socket
+func ackAcrossSockets(t *testing.T, h *H) {
+	for _, tr := range []string{"polling", "websocket"} {
+		for _, late := range []bool{false, true} {
+			var mu sync.Mutex
+			got := map[int][]string{} // connection index -> invocations of the ack callback of its event
+			ids := map[int]string{}
+			synctest.Test(t, func(t *testing.T) {
+				r := newRig(nil)
+				n := 0
+				r.server.OnConnection(func(s sio.ServerSocket) {
+					mu.Lock()
+					k := n
+					n++
+					mu.Unlock()
+					s.Timeout(3*time.Second).Emit("q", k, func(err error, v int) {
+						mu.Lock()
+						defer mu.Unlock()
+						if err != nil {
+							got[k] = append(got[k], "timeout")
+						} else {
+							got[k] = append(got[k], fmt.Sprintf("r%d", v))
+						}
+					})
+				})
+				ackID := func(p *rawPeer) string {
+					for _, f := range p.received() {
+						if strings.HasPrefix(f, "2") && strings.Contains(f, `["q"`) {
+							return f[1:strings.Index(f, "[")]
+						}
+					}
+					return ""
+				}
+				p1, err := r.rawPeer([]string{tr})
+				if err != nil {
+					t.Fatal(err)
+				}
+				p1.sendText("0")
+				time.Sleep(500 * time.Millisecond)
+				ids[0] = ackID(p1)
+				p1.sock.Close() // the first event is never answered on its own connection
+				time.Sleep(200 * time.Millisecond)
+				p2, err := r.rawPeer([]string{tr})
+				if err != nil {
+					t.Fatal(err)
+				}
+				p2.sendText("0")
+				time.Sleep(500 * time.Millisecond)
+				ids[1] = ackID(p2)
+				// the late answer to the FIRST event, sent on the new connection
+				p2.sendText("3" + ids[0] + "[111]")
+				if late {
+					time.Sleep(4 * time.Second)
+					p2.sendText("3" + ids[0] + "[112]")
+				}
+				time.Sleep(6 * time.Second)
+				p2.sock.Close()
+				r.close()
+				time.Sleep(10 * time.Minute)
+			})
+			desc := fmt.Sprintf("transport=%s: event 0 (ack id %s) sent to the client's first socket is answered after the client connected again, on the new socket, whose own event 1 (ack id %s) is never answered; second late answer=%v",
+				tr, ids[0], ids[1], late)
+			h.Eval()
+			h.NonTrivial(desc)
+			h.Dist("ack.acrossSockets")
+			if ids[0] == "" || ids[1] == "" {
+				h.Violation("C03", "harness: the ack-carrying event did not reach the raw peer", desc, fmt.Sprint(ids))
+				continue
+			}
+			for k := 0; k < 2; k++ {
+				if len(got[k]) != 1 {
+					h.Violation("C03", "with a timeout the acknowledgement callback is not invoked exactly once", desc, fmt.Sprintf("callback of event %d: %v", k, got[k]))
+				}
+			}
+			if len(got[1]) > 0 && got[1][0] != "timeout" {
+				h.Violation("C03", "an acknowledgement callback is invoked with the reply to another event", desc, fmt.Sprintf("event 1 was never answered, its callback received %v", got[1]))
+			}
 		}
 	}
 }
